@@ -115,6 +115,26 @@ def pipe_verilog(work, gmp, bmjson):
     return res
 
 
+def pipe_verilog_bmapi(work, gmp, bmjson):
+    """HDL generation with the BMAPI (AXI memory mapped) interface: every input and output of the machine is mapped"""
+    import json as _json
+    open(os.path.join(work, "bm.json"), "wb").write(bmjson)
+    bm = _json.loads(bmjson)
+    assoc = {"i%d" % i: str(i) for i in range(bm.get("Inputs", 0))}
+    assoc.update({"o%d" % i: str(i) for i in range(bm.get("Outputs", 0))})
+    open(os.path.join(work, "map.json"), "w").write(_json.dumps({"Assoc": assoc}, sort_keys=True))
+    vd = os.path.join(work, "v")
+    os.mkdir(vd)
+    rc, out = run_tool([tool("bondmachine"), "-bondmachine-file", "../bm.json", "-create-verilog", "-verilog-flavor", "zedboard", "-use-bmapi",
+                        "-bmapi-flavor", "aximm", "-bmapi-mapfile", "../map.json", "-bmapi-liboutdir", "lib", "-bmapi-modoutdir", "mod",
+                        "-bmapi-auxoutdir", "aux"], vd, gmp)
+    res = {"rc": str(rc).encode()}
+    for root, _, files in os.walk(vd):
+        for f in sorted(files):
+            res[os.path.relpath(os.path.join(root, f), vd)] = read(os.path.join(root, f)) or b""
+    return res
+
+
 def gen_bmq(rnd):
     n = rnd.choice([1, 2, 2, 3])
     qs = ["q%d" % i for i in range(n)]
@@ -286,8 +306,9 @@ def run(res, a):
             if arts0.get("bondmachine.json"):
                 verilog_inputs.append((name, arts0["bondmachine.json"]))
     vjobs = [("verilog:" + n, (lambda w, g, b=b: pipe_verilog(w, g, b))) for n, b in verilog_inputs[:6 if a.tier == "quick" else 40]]
+    vjobs += [("verilog-bmapi:" + n, (lambda w, g, b=b: pipe_verilog_bmapi(w, g, b))) for n, b in verilog_inputs if n.endswith("threeio.basm")][:1]
     with ThreadPoolExecutor(max_workers=14) as ex:
-        vres = list(ex.map(lambda j: repeat(j, max(3, runs // 2)), vjobs))
+        vres = list(ex.map(lambda j: repeat(j, runs if j[0].startswith("verilog-bmapi") else max(3, runs // 2)), vjobs))
     for name, outs in vres:
         res.count_case({"job": name}, nontrivial=True)
         hashes = [o[0] for o in outs]
